@@ -478,6 +478,36 @@ func (s *searcher) classify() []Violation {
 		out = append(out, Violation{Kind: "lost-event", Watcher: wi, Site: opString(e.Op), Detail: fmt.Sprintf("expected %s was never delivered || %s", e, reasons)})
 		break
 	}
+	if len(lost)+len(phantom) > 0 && !(s.firstCloseInv > 0 && s.firstCloseInv <= s.x.BodyEnd) {
+		// whatever is missing or surplus: the events that can be attributed without
+		// doubt - (name, op) occurs exactly once in the expectation (of several
+		// deliveries the first one counts) - must still come in the order of their kernel records (a
+		// defect that loses events and lets later ones overtake is an order violation
+		// too: seed C03-i)
+		expIdx, expCnt, dCnt := map[string]int{}, map[string]int{}, map[string]int{}
+		for i, e := range exp {
+			k := evKey(e.Name, e.Op)
+			expCnt[k]++
+			expIdx[k] = i
+		}
+		for _, d := range D {
+			dCnt[evKey(d.Name, d.Op)]++
+		}
+		last, lastStr := -1, ""
+		for _, d := range D {
+			k := evKey(d.Name, d.Op)
+			if expCnt[k] != 1 || dCnt[k] < 1 {
+				continue
+			}
+			dCnt[k] = -1 // of an event delivered more than once the first delivery counts
+			if expIdx[k] < last {
+				out = append(out, Violation{Kind: "order", Watcher: wi, Site: opString(d.Op),
+					Detail: fmt.Sprintf("%s was delivered after %s, its kernel record came before (and other events are missing or surplus) || %s", d.Str, lastStr, reasons)})
+				break
+			}
+			last, lastStr = expIdx[k], d.Str
+		}
+	}
 	for _, d := range ph2 {
 		kind := "phantom-event"
 		if d.Op == 0 {
